@@ -771,4 +771,295 @@ theorem firstF_mono : ∀ (f : Nat) (env' env : Env) (g : G) (fs : List FI) (me 
         rw [hsub name body hf]
         exact ih _ _ body fs me (hsub.filter name) heq f'' hle'
 
+/-! ## no panic: index expressions of the matchers stay in range -/
+
+theorem stopsLen_choice (opts : List G) (stops : List Bool) :
+    (G.choice opts stops).stopsLen = (stops.length == opts.length && G.stopsLen.stopsLenL opts) := by
+  simp [G.stopsLen]
+theorem stopsLen_seq (items : List G) : (G.seq items).stopsLen = G.stopsLen.stopsLenL items := by
+  simp [G.stopsLen]
+theorem stopsLen_rep0 (g : G) : (G.rep0 g).stopsLen = g.stopsLen := by simp [G.stopsLen]
+theorem stopsLen_rep1 (g : G) : (G.rep1 g).stopsLen = g.stopsLen := by simp [G.stopsLen]
+theorem stopsLen_rep01 (g : G) : (G.rep01 g).stopsLen = g.stopsLen := by simp [G.stopsLen]
+theorem stopsLen_adjoin (a b : G) : (G.adjoin a b).stopsLen = (a.stopsLen && b.stopsLen) := by
+  simp [G.stopsLen]
+
+theorem stopsLenL_mem : ∀ {items : List G}, G.stopsLen.stopsLenL items = true →
+    ∀ g ∈ items, g.stopsLen = true := by
+  intro items
+  induction items with
+  | nil => intro _ g hg; simp at hg
+  | cons a rest ih =>
+    intro h g hg
+    simp only [G.stopsLen.stopsLenL, Bool.and_eq_true] at h
+    simp only [List.mem_cons] at hg
+    rcases hg with rfl | hg
+    · exact h.1
+    · exact ih h.2 g hg
+
+theorem env_stopsLen_find : ∀ {env : Env}, env.stopsLen = true → ∀ x b, env.find x = some b →
+    b.stopsLen = true := by
+  intro env
+  induction env with
+  | nil => intro _ x b h; simp [Env.find, List.lookup] at h
+  | cons e rest ih =>
+    intro hs x b h
+    rcases e with ⟨k, v⟩
+    simp only [Env.stopsLen, Bool.and_eq_true] at hs
+    simp only [Env.find, List.lookup] at h
+    split at h
+    · simp only [Option.some.injEq] at h; subst h; exact hs.1
+    · exact ih hs.2 x b h
+
+theorem toksOk_get : ∀ {toks : List Tok}, toksOk toks = true → ∀ (i : Nat) (t : Tok), toks[i]? = some t →
+    t.kind = tokSTRING → t.lit ≠ [] := by
+  intro toks
+  induction toks with
+  | nil => intro _ i t h; simp at h
+  | cons a rest ih =>
+    intro hok i t h hk
+    simp only [toksOk, Bool.and_eq_true, Bool.or_eq_true, bne_iff_ne, ne_eq, Bool.not_eq_true',
+      List.isEmpty_eq_false_iff] at hok
+    cases i with
+    | zero =>
+      simp only [List.getElem?_cons_zero, Option.some.injEq] at h
+      subst h
+      rcases hok.1 with h1 | h1
+      · exact absurd hk h1
+      · exact h1
+    | succ i => exact ih hok.2 i t (by simpa using h) hk
+
+theorem seqLoop_no_panic (m : G → Nat → Out (V α)) (N : Nat)
+    (hle : ∀ g p n r l, p ≤ N → m g p = (.ok n r, l) → p + n ≤ N) :
+    ∀ (items : List G) (p : Nat), p ≤ N →
+    (∀ g ∈ items, ∀ p', p' ≤ N → (m g p').1 ≠ .abort .panic) →
+    (seqLoop m items p).1 ≠ .abort .panic := by
+  intro items
+  induction items with
+  | nil => intro p _ _; simp [seqLoop]
+  | cons g gs ih =>
+    intro p hp h
+    have h1 := h g (by simp) p hp
+    rcases hm : m g p with ⟨r1, l1⟩
+    rw [hm] at h1
+    cases r1 with
+    | ok n1 v1 =>
+      have hle1 := hle g p n1 v1 l1 hp hm
+      have h2 := ih (p + n1) hle1 (fun g' hg' => h g' (by simp [hg']))
+      rcases hr : seqLoop m gs (p + n1) with ⟨r2, l2⟩
+      rw [hr] at h2
+      cases r2 with
+      | ok n2 rs2 => simp [seqLoop, hm, hr]
+      | fail n2 e => simp [seqLoop, hm, hr]
+      | abort a => simpa [seqLoop, hm, hr] using h2
+    | fail n1 e => simp [seqLoop, hm]
+    | abort a => simpa [seqLoop, hm] using h1
+
+theorem repLoop_no_panic (m : Nat → Out (V α)) (N : Nat)
+    (hle : ∀ p n r l, p ≤ N → m p = (.ok n r, l) → p + n ≤ N)
+    (h : ∀ p, p ≤ N → (m p).1 ≠ .abort .panic) :
+    ∀ (k p : Nat), p ≤ N → (repLoop m N k p).1 ≠ .abort .panic := by
+  intro k
+  induction k with
+  | zero => intro p _; simp [repLoop]
+  | succ k ih =>
+    intro p hp
+    have h1 := h p hp
+    rcases hm : m p with ⟨r1, l1⟩
+    rw [hm] at h1
+    cases r1 with
+    | ok n1 v1 =>
+      by_cases hn : n1 = 0
+      · simp [repLoop, hm, hn]
+      · have hle1 := hle p n1 v1 l1 hp hm
+        have h2 := ih (p + n1) hle1
+        rcases hr : repLoop m N k (p + n1) with ⟨r2, l2⟩
+        rw [hr] at h2
+        cases r2 with
+        | ok n2 rs2 => simp [repLoop, hm, hn, hr]
+        | fail n2 e => simp [repLoop, hm, hn, hr]
+        | abort a => simpa [repLoop, hm, hn, hr] using h2
+    | fail n1 e => simp [repLoop, hm]
+    | abort a => simpa [repLoop, hm] using h1
+
+theorem choiceLoop_no_panic (m : G → Out (V α)) : ∀ (opts : List G) (stops : List Bool) nMax errMax multi,
+    stops.length = opts.length → (∀ g ∈ opts, (m g).1 ≠ .abort .panic) →
+    (choiceLoop m opts stops nMax errMax multi).1 ≠ .abort .panic := by
+  intro opts
+  induction opts with
+  | nil => intros; simp [choiceLoop]
+  | cons g gs ih =>
+    intro stops nMax errMax multi hlen h
+    have h1 := h g (by simp)
+    rcases hm : m g with ⟨r1, l1⟩
+    rw [hm] at h1
+    cases stops with
+    | nil => simp at hlen
+    | cons s st =>
+      have hlen' : st.length = gs.length := by simpa using hlen
+      have hrest := fun nm em mu => ih st nm em mu hlen' (fun g' hg' => h g' (by simp [hg']))
+      cases r1 with
+      | ok n v => simp [choiceLoop, hm]
+      | abort a => simpa [choiceLoop, hm] using h1
+      | fail n e =>
+        simp only [choiceLoop, hm, List.tail_cons]
+        by_cases hn : n > 0
+        · simp only [hn, if_true]
+          cases s with
+          | true => simp
+          | false =>
+            simp only [Bool.false_eq_true, if_false]
+            exact hrest _ _ _
+        · simp only [hn, if_false]
+          exact hrest _ _ _
+
+theorem matchF_no_panic (c : Cx α) (henv : c.env.stopsLen = true) (htoks : toksOk c.toks = true) :
+    ∀ f g i, i ≤ c.N → g.stopsLen = true → (matchF c f g i).1 ≠ .abort .panic := by
+  intro f
+  induction f with
+  | zero => intro g i _ _; simp [matchF_zero]
+  | succ f ih =>
+    intro g i hi hg
+    have hle : ∀ g p n v l, p ≤ c.N → matchF c f g p = (.ok n v, l) → p + n ≤ c.N :=
+      fun g p n v l hp h => matchF_le c f g p n v l hp h
+    cases g with
+    | tru => simp [matchF]
+    | ws =>
+      simp only [matchF]
+      cases ht : c.toks[i]? with
+      | none => simp
+      | some t =>
+        simp only
+        by_cases hi0 : i > 0
+        · simp only [hi0, if_true]
+          have hlt := tok_lt ht
+          have : i - 1 < c.toks.length := by unfold Cx.N at hlt; omega
+          rw [List.getElem?_eq_getElem this]
+          simp only
+          split <;> simp
+        · simp [hi0]
+    | str q =>
+      simp only [matchF]
+      cases ht : c.toks[i]? with
+      | none => simp
+      | some t =>
+        simp only
+        by_cases hk : t.kind = tokSTRING
+        · simp only [hk, ne_eq, not_true_eq_false, if_false]
+          have hl := toksOk_get htoks i t ht hk
+          cases hlit : t.lit with
+          | nil => exact absurd hlit hl
+          | cons b r => simp only; split <;> simp
+        · simp [hk]
+    | tok k label =>
+      simp only [matchF]
+      repeat' split
+      all_goals simp
+    | lit k lt =>
+      simp only [matchF]
+      repeat' split
+      all_goals simp
+    | choice opts stops =>
+      rw [matchF_choice]
+      rw [stopsLen_choice] at hg
+      simp only [Bool.and_eq_true, beq_iff_eq] at hg
+      exact choiceLoop_no_panic _ opts stops _ _ _ hg.1
+        (fun g' hg' => ih g' i hi (stopsLenL_mem hg.2 g' hg'))
+    | seq items =>
+      rw [matchF_seq]
+      rw [stopsLen_seq] at hg
+      intro hc
+      have : (seqLoop (fun g p => matchF c f g p) items i).1 = .abort .panic := by
+        rcases hr : seqLoop (fun g p => matchF c f g p) items i with ⟨r, l⟩
+        rw [hr] at hc
+        cases r <;> simp_all [mapOut]
+      exact seqLoop_no_panic _ c.N hle items i hi
+        (fun g' hg' p' hp' => ih g' p' hp' (stopsLenL_mem hg g' hg')) this
+    | rep0 g' =>
+      rw [matchF_rep0]
+      rw [stopsLen_rep0] at hg
+      intro hc
+      have : (repLoop (fun p => matchF c f g' p) c.N f i).1 = .abort .panic := by
+        rcases hr : repLoop (fun p => matchF c f g' p) c.N f i with ⟨r, l⟩
+        rw [hr] at hc
+        cases r <;> simp_all [mapOut]
+      exact repLoop_no_panic _ c.N (fun p n v l hp h => hle g' p n v l hp h)
+        (fun p hp => ih g' p hp hg) f i hi this
+    | rep1 g' =>
+      rw [matchF_rep1]
+      rw [stopsLen_rep1] at hg
+      have h1 := ih g' i hi hg
+      rcases hm : matchF c f g' i with ⟨r1, l1⟩
+      rw [hm] at h1
+      cases r1 with
+      | ok n1 v1 =>
+        have hle1 := hle g' i n1 v1 l1 hi hm
+        have h2 := repLoop_no_panic (fun p => matchF c f g' p) c.N (fun p n v l hp h => hle g' p n v l hp h)
+          (fun p hp => ih g' p hp hg) f (i + n1) hle1
+        simp only
+        rcases hr : repLoop (fun p => matchF c f g' p) c.N f (i + n1) with ⟨r2, l2⟩
+        rw [hr] at h2
+        cases r2 with
+        | ok n2 rs2 => simp
+        | fail n2 e => simp
+        | abort a => simpa using h2
+      | fail n1 e => simp
+      | abort a => simpa using h1
+    | rep01 g' =>
+      rw [matchF_rep01]
+      rw [stopsLen_rep01] at hg
+      have h1 := ih g' i hi hg
+      rcases hm : matchF c f g' i with ⟨r1, l1⟩
+      rw [hm] at h1
+      cases r1 with
+      | ok n1 v1 => simp
+      | fail n1 e => simp
+      | abort a => simpa using h1
+    | adjoin a b =>
+      rw [matchF_adjoin]
+      rw [stopsLen_adjoin] at hg
+      simp only [Bool.and_eq_true] at hg
+      have h1 := ih a i hi hg.1
+      rcases hm : matchF c f a i with ⟨r1, l1⟩
+      rw [hm] at h1
+      cases r1 with
+      | ok n1 v1 =>
+        have hle1 := hle a i n1 v1 l1 hi hm
+        simp only
+        by_cases hn : n1 = 0
+        · simp [hn]
+        · simp only [hn, if_false]
+          have h2 := ih b (i + n1) hle1 hg.2
+          rcases hb : matchF c f b (i + n1) with ⟨r2, l2⟩
+          rw [hb] at h2
+          cases r2 with
+          | ok n2 v2 =>
+            have hle2 := hle b (i + n1) n2 v2 l2 hle1 hb
+            simp only
+            by_cases hn2 : n2 = 0
+            · simp [hn2]
+            · simp only [hn2, if_false]
+              have hA : i + n1 - 1 < c.toks.length := by unfold Cx.N at hle2; omega
+              have hB : i + n1 < c.toks.length := by unfold Cx.N at hle2; omega
+              rw [List.getElem?_eq_getElem hA, List.getElem?_eq_getElem hB]
+              simp only
+              split <;> simp
+          | fail n2 e => simp
+          | abort ab => simpa using h2
+      | fail n1 e => simp
+      | abort ab => simpa using h1
+    | var x =>
+      rw [matchF_var]
+      cases hf : c.env.find x with
+      | none => simp
+      | some body =>
+        simp only
+        have h1 := ih body i hi (env_stopsLen_find henv x body hf)
+        rcases hm : matchF c f body i with ⟨r1, l1⟩
+        rw [hm] at h1
+        cases r1 with
+        | ok n1 v1 => simp
+        | fail n1 e => simp only; split <;> simp
+        | abort ab => simpa using h1
+
 end GopModel.Tpl
